@@ -6,6 +6,8 @@ import Corro.Model.Members
 
 namespace Corro.Members
 
+variable {cfg : Cfg}
+
 /-! ### association lists -/
 
 theorem get_put {α : Type} (k : Nat) (v : α) (m : Map α) (k' : Nat) :
@@ -134,13 +136,13 @@ theorem get_of_mem {α : Type} (m : Map α) (k : Nat) (v : α) (hs : Sorted m) (
 
 /-! ### `recalc` only touches the ring of the indexed member -/
 
-@[simp] theorem recalc_byAddr (m : Members) (a : Nat) : (recalc m a).byAddr = m.byAddr := by
+@[simp] theorem recalc_byAddr (m : Members) (a : Nat) : (recalc cfg m a).byAddr = m.byAddr := by
   unfold recalc; repeat (first | rfl | split)
 
-@[simp] theorem recalc_rtts (m : Members) (a : Nat) : (recalc m a).rtts = m.rtts := by
+@[simp] theorem recalc_rtts (m : Members) (a : Nat) : (recalc cfg m a).rtts = m.rtts := by
   unfold recalc; repeat (first | rfl | split)
 
-@[simp] theorem view_recalc (m : Members) (a id : Nat) : view (recalc m a) id = view m id := by
+@[simp] theorem view_recalc (m : Members) (a id : Nat) : view (recalc cfg m a) id = view m id := by
   unfold recalc
   split
   · rfl
@@ -155,7 +157,7 @@ theorem get_of_mem {α : Type} (m : Map α) (k : Nat) (v : α) (hs : Sorted m) (
         · rfl
 
 theorem recalc_other (m : Members) (a id : Nat) (h : get m.byAddr a ≠ some id) :
-    get (recalc m a).states id = get m.states id := by
+    get (recalc cfg m a).states id = get m.states id := by
   cases hb : get m.byAddr a with
   | none => simp only [recalc, hb]
   | some id0 =>
@@ -171,21 +173,21 @@ theorem avg_getD (r : Map (List Nat)) (a : Nat) : (get r a).bind avgOf = avgOf (
   cases get r a <;> simp [avgOf]
 
 /-- the ring after a recalculation that found the member: unchanged without samples, else the bucket -/
-def newRing (old : Option Nat) (buf : List Nat) : Option Nat :=
+def newRing (cfg : Cfg) (old : Option Nat) (buf : List Nat) : Option Nat :=
   match avgOf buf with
   | none => old
-  | some avg => findBucket ringBuckets avg 0
+  | some avg => findBucket cfg.buckets avg 0
 
 theorem recalc_hit (m : Members) (a id : Nat) (st : MemberState)
     (h1 : get m.byAddr a = some id) (h2 : get m.states id = some st) :
-    get (recalc m a).states id =
-      some { st with ring := newRing st.ring ((get m.rtts a).getD []) } := by
+    get (recalc cfg m a).states id =
+      some { st with ring := newRing cfg st.ring ((get m.rtts a).getD []) } := by
   have ha := avg_getD m.rtts a
   cases hv : avgOf ((get m.rtts a).getD []) with
   | none => rw [hv] at ha; simp [recalc, h1, ha, h2, newRing, hv]
   | some avg => rw [hv] at ha; simp [recalc, h1, ha, h2, newRing, hv, get_put]
 
-theorem sorted_recalc (m : Members) (a : Nat) (h : Sorted m.states) : Sorted (recalc m a).states := by
+theorem sorted_recalc (m : Members) (a : Nat) (h : Sorted m.states) : Sorted (recalc cfg m a).states := by
   unfold recalc
   repeat (first | exact h | exact sorted_put _ _ _ h | split)
 
@@ -199,7 +201,7 @@ theorem get_dropIndex (ba : Map Nat) (a id a' : Nat) :
   · rename_i h; simp [h]
 
 theorem view_addMember (m : Members) (id a ts c id' : Nat) :
-    view (addMember m id a ts c).1 id' =
+    view (addMember cfg m id a ts c).1 id' =
       if id = id' then
         (match view m id with
          | none => some (a, ts, c)
@@ -249,11 +251,11 @@ theorem view_removeMember (m : Members) (id ts id' : Nat) :
       · subst_vars; simp [*]
       · rfl
 
-@[simp] theorem view_addRtt (m : Members) (a ms id : Nat) : view (addRtt m a ms) id = view m id := by
+@[simp] theorem view_addRtt (m : Members) (a ms id : Nat) : view (addRtt cfg m a ms) id = view m id := by
   simp only [addRtt, view_recalc]; rfl
 
 theorem byAddr_addMember (m : Members) (id a ts c : Nat) :
-    (addMember m id a ts c).1.byAddr =
+    (addMember cfg m id a ts c).1.byAddr =
       match get m.states id with
       | none => put a id m.byAddr
       | some st =>
@@ -279,7 +281,7 @@ theorem byAddr_removeMember (m : Members) (id ts : Nat) :
   | none => simp [removeMember, hs]
   | some st => simp only [removeMember, hs]; split <;> rfl
 
-@[simp] theorem byAddr_addRtt (m : Members) (a ms : Nat) : (addRtt m a ms).byAddr = m.byAddr := by
+@[simp] theorem byAddr_addRtt (m : Members) (a ms : Nat) : (addRtt cfg m a ms).byAddr = m.byAddr := by
   simp [addRtt]
 
 /-! ### invariants, one step at a time -/
@@ -299,7 +301,7 @@ theorem K_iff (m : Members) : K m ↔ IndexSound m := by
     obtain ⟨st, h1, h2⟩ := h a id hb
     simp [view, h1, h2]
 
-theorem K_step (m : Members) (op : Op) (h : K m) : K (step m op) := by
+theorem K_step (m : Members) (op : Op) (h : K m) : K (step cfg m op) := by
   intro a' id' hb
   cases op with
   | up id a ts c =>
@@ -364,7 +366,7 @@ theorem D'_of_distinct (m : Members) (h : DistinctAddrs m) : D' m := by
       subst hi; subst hj
       exact h (i, si) (mem_of_get _ _ _ hsi) (j, sj) (mem_of_get _ _ _ hsj) hij
 
-theorem B'_step (m : Members) (op : Op) (h : B' m) (hD : D' (step m op)) : B' (step m op) := by
+theorem B'_step (m : Members) (op : Op) (h : B' m) (hD : D' (step cfg m op)) : B' (step cfg m op) := by
   intro id' v' hv'
   have hB1 := h id'
   cases op with
@@ -394,7 +396,7 @@ theorem B'_step (m : Members) (op : Op) (h : B' m) (hD : D' (step m op)) : B' (s
       grind [get_dropIndex]
   | rtt a ms => simp only [step, view_addRtt, byAddr_addRtt] at hv' ⊢; exact hB1 v' hv'
   | ring0 c => exact hB1 v' hv'
-@[simp] theorem rtts_addMember (m : Members) (id a ts c : Nat) : (addMember m id a ts c).1.rtts = m.rtts := by
+@[simp] theorem rtts_addMember (m : Members) (id a ts c : Nat) : (addMember cfg m id a ts c).1.rtts = m.rtts := by
   unfold addMember
   repeat (first | rfl | simp only [recalc_rtts] | split)
 
@@ -402,19 +404,22 @@ theorem B'_step (m : Members) (op : Op) (h : B' m) (hD : D' (step m op)) : B' (s
   unfold removeMember
   repeat (first | rfl | split)
 
-theorem newRing_none (buf : List Nat) : newRing none buf = ringOf buf := by
+theorem newRing_none (buf : List Nat) : newRing cfg none buf = ringOf cfg buf := by
   simp only [newRing, ringOf]; split <;> simp_all
 
-theorem newRing_nonempty (old : Option Nat) (buf : List Nat) (h : buf ≠ []) : newRing old buf = ringOf buf := by
+theorem newRing_nonempty (old : Option Nat) (buf : List Nat) (h : buf ≠ []) : newRing cfg old buf = ringOf cfg buf := by
   simp only [newRing, ringOf, avgOf]
   cases buf with
   | nil => exact absurd rfl h
   | cons x t => simp
 
-theorem pushSample_ne (ms : Nat) (buf : List Nat) : pushSample ms buf ≠ [] := by
-  simp [pushSample, rttCap]
+theorem pushSample_ne (ms : Nat) (buf : List Nat) : pushSample cfg ms buf ≠ [] := by
+  have := cfg.cap_pos
+  cases h : cfg.cap with
+  | zero => omega
+  | succ n => simp [pushSample, h]
 
-theorem J_step (m : Members) (op : Op) (hK : K m) (h : RingCurrent m) : RingCurrent (step m op) := by
+theorem J_step (m : Members) (op : Op) (hK : K m) (h : RingCurrent cfg m) : RingCurrent cfg (step cfg m op) := by
   intro id' st' hs' hb'
   have hJ := h id' st'
   cases op with
@@ -475,19 +480,19 @@ theorem J_step (m : Members) (op : Op) (hK : K m) (h : RingCurrent m) : RingCurr
     simp only [step, byAddr_addRtt] at hs' hb' ⊢
     simp only [addRtt, recalc_rtts, get_put] at hs' ⊢
     by_cases hba : get m.byAddr a = some id'
-    · have hv := view_recalc { m with rtts := put a (pushSample ms ((get m.rtts a).getD [])) m.rtts } a id'
+    · have hv := view_recalc (cfg := cfg) { m with rtts := put a (pushSample cfg ms ((get m.rtts a).getD [])) m.rtts } a id'
       have hk := hK a id' hba
       cases hs0 : get m.states id' with
       | none => simp [view, hs', hs0] at hv
       | some st0 =>
-        rw [recalc_hit { m with rtts := put a (pushSample ms ((get m.rtts a).getD [])) m.rtts } a id' st0 hba hs0] at hs'
+        rw [recalc_hit { m with rtts := put a (pushSample cfg ms ((get m.rtts a).getD [])) m.rtts } a id' st0 hba hs0] at hs'
         simp only [Option.some.injEq] at hs'
         simp only [view, hs0] at hk
         subst hs'
         simp only [get_put]
         simp at hk
         simp [hk, newRing_nonempty _ _ (pushSample_ne _ _)]
-    · rw [recalc_other { m with rtts := put a (pushSample ms ((get m.rtts a).getD [])) m.rtts } a id' hba] at hs'
+    · rw [recalc_other { m with rtts := put a (pushSample cfg ms ((get m.rtts a).getD [])) m.rtts } a id' hba] at hs'
       grind
   | ring0 c => exact h id' st' hs' hb'
 
@@ -496,7 +501,7 @@ theorem J_step (m : Members) (op : Op) (hK : K m) (h : RingCurrent m) : RingCurr
 theorem agree_step (m : Members) (sp : Map Ident) (op : Op)
     (hA : ∀ id, view m id = specView sp id)
     (hF : ∀ id a ts c e, op = .up id a ts c → get sp id = some e → e.up = false → e.ts ≤ ts) :
-    ∀ id', view (step m op) id' = specView (specStep sp op) id' := by
+    ∀ id', view (step cfg m op) id' = specView (specStep sp op) id' := by
   intro id'
   cases op with
   | up id a ts c =>
@@ -571,7 +576,7 @@ theorem down_entry_origin (sp : Map Ident) (op : Op) (id : Nat) (e : Ident)
 
 /-! ### key order -/
 
-theorem sorted_step (m : Members) (op : Op) (h : Sorted m.states) : Sorted (step m op).states := by
+theorem sorted_step (m : Members) (op : Op) (h : Sorted m.states) : Sorted (step cfg m op).states := by
   cases op with
   | up id a ts c =>
     simp only [step, addMember]
@@ -590,9 +595,9 @@ theorem take_append_take (n : Nat) (l t : List Nat) : (l ++ t.take n).take n = (
   omega
 
 theorem rtts_step (m : Members) (op : Op) (a : Nat) :
-    (get (step m op).rtts a).getD [] =
+    (get (step cfg m op).rtts a).getD [] =
       match op with
-      | .rtt a' ms => if a' = a then pushSample ms ((get m.rtts a).getD []) else (get m.rtts a).getD []
+      | .rtt a' ms => if a' = a then pushSample cfg ms ((get m.rtts a).getD []) else (get m.rtts a).getD []
       | _ => (get m.rtts a).getD [] := by
   cases op with
   | up id a' ts c => simp [step]
@@ -605,9 +610,9 @@ theorem rtts_step (m : Members) (op : Op) (a : Nat) :
   | ring0 c => rfl
 
 theorem rtts_runFrom (a : Nat) : ∀ (ops : List Op) (m : Members),
-    ((get m.rtts a).getD []).length ≤ rttCap →
-    (get (runFrom m ops).rtts a).getD [] =
-      ((samplesFor a ops).reverse ++ (get m.rtts a).getD []).take rttCap := by
+    ((get m.rtts a).getD []).length ≤ cfg.cap →
+    (get (runFrom cfg m ops).rtts a).getD [] =
+      ((samplesFor a ops).reverse ++ (get m.rtts a).getD []).take cfg.cap := by
   intro ops
   induction ops with
   | nil =>
@@ -616,8 +621,8 @@ theorem rtts_runFrom (a : Nat) : ∀ (ops : List Op) (m : Members),
     exact (List.take_of_length_le hm).symm
   | cons op r ih =>
     intro m hm
-    have hstep := rtts_step m op a
-    have hlen : ((get (step m op).rtts a).getD []).length ≤ rttCap := by
+    have hstep := rtts_step (cfg := cfg) m op a
+    have hlen : ((get (step cfg m op).rtts a).getD []).length ≤ cfg.cap := by
       rw [hstep]
       cases op with
       | rtt a' ms =>
@@ -628,7 +633,7 @@ theorem rtts_runFrom (a : Nat) : ∀ (ops : List Op) (m : Members),
       | up _ _ _ _ => exact hm
       | down _ _ _ _ => exact hm
       | ring0 _ => exact hm
-    have := ih (step m op) hlen
+    have := ih (step cfg m op) hlen
     simp only [runFrom, List.foldl_cons] at this ⊢
     rw [this, hstep]
     cases op with
@@ -671,19 +676,23 @@ theorem findBucket_ge (bs : List (Nat × Nat)) (avg : Nat) : ∀ i j, findBucket
     · simp at h; omega
     · have := ih (i + 1) j h; omega
 
-theorem findBucket_zero_iff (avg : Nat) : findBucket ringBuckets avg 0 = some 0 ↔ avg < 6 := by
-  have hb : ringBuckets = (0, 6) :: ringBuckets.tail := rfl
-  rw [hb, findBucket]
-  constructor
-  · intro h
-    split at h
-    · omega
-    · have := findBucket_ge _ _ _ _ h; omega
-  · intro h
-    rw [if_pos (by omega)]
+theorem findBucket_zero_iff (bs : List (Nat × Nat)) (avg : Nat) :
+    findBucket bs avg 0 = some 0 ↔ inFirstBucket bs avg := by
+  cases bs with
+  | nil => simp [findBucket, inFirstBucket]
+  | cons b t =>
+    obtain ⟨lo, hi⟩ := b
+    simp only [findBucket, inFirstBucket]
+    constructor
+    · intro h
+      split at h
+      · assumption
+      · have := findBucket_ge _ _ _ _ h; omega
+    · intro h
+      rw [if_pos h]
 
 theorem ringOf_zero_iff (buf : List Nat) :
-    ringOf buf = some 0 ↔ buf ≠ [] ∧ buf.sum / buf.length < 6 := by
+    ringOf cfg buf = some 0 ↔ buf ≠ [] ∧ inFirstBucket cfg.buckets (buf.sum / buf.length) := by
   cases buf with
   | nil => simp [ringOf, avgOf]
   | cons x t =>
@@ -692,37 +701,37 @@ theorem ringOf_zero_iff (buf : List Nat) :
 /-! ### from steps to whole sequences -/
 
 theorem runFrom_cons (m : Members) (op : Op) (r : List Op) :
-    runFrom m (op :: r) = runFrom (step m op) r := rfl
+    runFrom cfg m (op :: r) = runFrom cfg (step cfg m op) r := rfl
 
-theorem invariant_runFrom (P : Members → Prop) (hstep : ∀ m op, P m → P (step m op)) :
-    ∀ (ops : List Op) (m : Members), P m → P (runFrom m ops) := by
+theorem invariant_runFrom (P : Members → Prop) (hstep : ∀ m op, P m → P (step cfg m op)) :
+    ∀ (ops : List Op) (m : Members), P m → P (runFrom cfg m ops) := by
   intro ops
   induction ops with
   | nil => intro m h; exact h
-  | cons op r ih => intro m h; exact ih (step m op) (hstep m op h)
+  | cons op r ih => intro m h; exact ih (step cfg m op) (hstep m op h)
 
-theorem K_run (ops : List Op) : K (run ops) :=
+theorem K_run (ops : List Op) : K (run cfg ops) :=
   invariant_runFrom K K_step ops init (by intro a id h; simp [init, get] at h)
 
-theorem sorted_run (ops : List Op) : Sorted (run ops).states :=
+theorem sorted_run (ops : List Op) : Sorted (run cfg ops).states :=
   invariant_runFrom (fun m => Sorted m.states) sorted_step ops init (by simp [init, Sorted])
 
-theorem ringCurrent_run (ops : List Op) : RingCurrent (run ops) := by
-  have : K (run ops) ∧ RingCurrent (run ops) :=
-    invariant_runFrom (fun m => K m ∧ RingCurrent m)
+theorem ringCurrent_run (ops : List Op) : RingCurrent cfg (run cfg ops) := by
+  have : K (run cfg ops) ∧ RingCurrent cfg (run cfg ops) :=
+    invariant_runFrom (fun m => K m ∧ RingCurrent cfg m)
       (fun m op h => ⟨K_step m op h.1, J_step m op h.1 h.2⟩) ops init
       ⟨by intro a id h; simp [init, get] at h, by intro id st h; simp [init, get] at h⟩
   exact this.2
 
 theorem B'_runFrom : ∀ (ops : List Op) (m : Members), B' m →
-    (∀ k, k ≤ ops.length → D' (runFrom m (ops.take k))) → B' (runFrom m ops) := by
+    (∀ k, k ≤ ops.length → D' (runFrom cfg m (ops.take k))) → B' (runFrom cfg m ops) := by
   intro ops
   induction ops with
   | nil => intro m h _; exact h
   | cons op r ih =>
     intro m h hD
-    have h1 : D' (step m op) := by simpa [runFrom] using hD 1 (by simp)
-    refine ih (step m op) (B'_step m op h h1) ?_
+    have h1 : D' (step cfg m op) := by simpa [runFrom] using hD 1 (by simp)
+    refine ih (step cfg m op) (B'_step m op h h1) ?_
     intro k hk
     have := hD (k + 1) (by simp; omega)
     simpa [runFrom] using this
@@ -732,7 +741,7 @@ theorem agree_fold : ∀ (ops : List Op) (m : Members) (sp : Map Ident),
     (∀ id e, get sp id = some e → e.up = false →
       ∀ o ∈ ops, ∀ a t c, o = Op.up id a t c → e.ts ≤ t) →
     Admissible ops →
-    ∀ id, view (ops.foldl step m) id = specView (ops.foldl specStep sp) id := by
+    ∀ id, view (ops.foldl (step cfg) m) id = specView (ops.foldl specStep sp) id := by
   intro ops
   induction ops with
   | nil => intro m sp hA _ _; exact hA
@@ -741,7 +750,7 @@ theorem agree_fold : ∀ (ops : List Op) (m : Members) (sp : Map Ident),
     simp only [Admissible, List.pairwise_cons] at hadm
     obtain ⟨hhead, htail⟩ := hadm
     simp only [List.foldl_cons]
-    refine ih (step m op) (specStep sp op) ?_ ?_ htail
+    refine ih (step cfg m op) (specStep sp op) ?_ ?_ htail
     · exact agree_step m sp op hA
         (fun id a ts c e hop he hu => hF id e he hu op (List.mem_cons_self ..) a ts c hop)
     · intro id e he hu o ho a t c hop
@@ -768,7 +777,7 @@ theorem distinct_of_D' (m : Members) (hs : Sorted m.states) (h : D' m) : Distinc
 /-! ### a notification about one actor leaves the other entries alone -/
 
 theorem get_states_addMember_other (m : Members) (id a ts c id' : Nat) (hne : id ≠ id') :
-    get (addMember m id a ts c).1.states id' = get m.states id' := by
+    get (addMember cfg m id a ts c).1.states id' = get m.states id' := by
   unfold addMember
   split
   · simp only []
